@@ -4,6 +4,9 @@ import ConduitModel.Driver.Arbiter
 import ConduitModel.Driver.Ctl
 import ConduitModel.Driver.Prov
 import ConduitModel.Driver.Live
+import ConduitModel.Driver.Errs
+import ConduitModel.Driver.Egress
+import ConduitModel.Driver.ErrPaths
 
 /-
 `driver <component>` : reads cases from stdin (one per line), writes one result line per case.
@@ -20,6 +23,11 @@ def component (name : String) : Option (String → String) :=
   | "crud" => some crudLine
   | "import" => some importLine
   | "live" => some liveLine
+  | "errtree" => some errtreeLine
+  | "errfmt" => some errfmtLine
+  | "errsite" => some errsiteLine
+  | "egress" => some egressLine
+  | "workernack" => some workernackLine
   | _ => none
 
 partial def loop (h : IO.FS.Stream) (out : IO.FS.Stream) (f : String → String) : IO Unit := do
